@@ -88,6 +88,7 @@ void use_props(OVM::TopologyKernel &m, const OVM::TopologyKernel &cm) {
   (void)p.persistent();
   (void)p.shared();
   (void)p.anonymous();
+  (void)static_cast<bool>(p);
   (void)p.def();
   (void)s; (void)q; (void)g; (void)gc;
   for (auto it = m.template persistent_props_begin<E>(); it != m.template persistent_props_end<E>(); ++it) {
